@@ -129,6 +129,9 @@ def run_mutation(case: dict):
     return ok(accepted=True, normalized=n)
 
 
+_primed = [False]
+
+
 def run_wire(case: dict):
     """GeminiClient.get(u) over in-memory TLS; the bytes it puts on the wire are parsed by the real server protocol
     with a spy handler: the handler must see the components the caller asked for."""
@@ -162,13 +165,26 @@ def run_wire(case: dict):
         net.install(loop)
         net.default_peer = memnet.ScriptedPeer(certs.get("ec-a"), [("wait_request", 1.0), ("respond", respond), ("close",)])
         client = GeminiClient(timeout=10, trust_on_first_use=False)
+        if not _primed[0]:
+            # once per process: the client has followed a redirect before (library state that such a code path sets up
+            # must not change how later URLs are read)
+            _primed[0] = True
+            net.add("prime.example", 1965, memnet.ScriptedPeer(certs.get("ec-a"), [("wait_request", 1.0), ("respond", lambda req: (
+                b"31 gemini://prime.example/target;x=1\r\n" if b"/start" in req else b"20 text/gemini\r\nprimed")), ("close",)]))
+            try:
+                await client.get("gemini://prime.example/start", follow_redirects=True)
+            except Exception:
+                pass
+            seen.clear()
+            sim.log.clear()
+        n0 = len(loop.connection_log)
         try:
             r = await client.get(u, follow_redirects=False)
             res = ("resp", r.status, r.body)
         except Exception as e:
             res = ("exc", type(e).__name__, str(e)[:80])
         calls = [e for e in sim.log if e[0] == "handler"]
-        return res, calls, [(h, p) for (h, p, _t) in loop.connection_log]
+        return res, calls, [(h, p) for (h, p, _t) in loop.connection_log[n0:]]
 
     res, calls, conns = vloop.run(scenario)
     want = (case["host"], case["port"], case["path"], case["query"])
